@@ -1,5 +1,6 @@
 #!/bin/bash
 # tools/quick_all.sh ID...  -- run quick tier of the given checks, summarise
+[ $# -eq 0 ] && set -- C01 C02 C03 C04 C05 C06 C07 C08 C09 C10 C11 C12 C13 C14 C15 C16 C17 C18 C19 C20
 for id in "$@"; do
   out=$(./check $id --tier quick 2>&1); rc=$?
   echo "[$id rc=$rc] $(echo "$out" | grep -E '^C[0-9]+ tier' | sed 's/excluded_known.*wall/wall/')"
